@@ -3,6 +3,7 @@ package compiler
 import (
 	"fmt"
 	"math"
+	"strconv"
 	"strings"
 
 	"github.com/glyphlang/glyph/pkg/ast"
@@ -868,7 +869,8 @@ func exprToString(expr ast.Expr) string {
 		case ast.IntLiteral:
 			return fmt.Sprintf("int:%d", lit.Value)
 		case ast.FloatLiteral:
-			return fmt.Sprintf("float:%f", lit.Value)
+			// %f keeps six decimals: 0.0000001 and 0.0000004 would share a key
+			return "float:" + strconv.FormatFloat(lit.Value, 'g', -1, 64)
 		case ast.BoolLiteral:
 			return fmt.Sprintf("bool:%v", lit.Value)
 		case ast.StringLiteral:
